@@ -60,6 +60,7 @@ struct vt_regs {            // offsets are used by the assembly below
   double st0, st1;                                       // 368, 376
   uint64_t counter;                                      // 384  (spin threads)
   uint64_t below_ptr;                                    // 392  stored in the word just below the waiting stack pointer
+  uint64_t above_ptr;                                    // 400  if non-zero: stored in the second word above the waiting stack pointer
 };
 
 extern ElfW(Dyn) _DYNAMIC[];
@@ -82,6 +83,10 @@ __asm__(
     "  jne 5f\n"
     "  mov 392(%r11), %rax\n"
     "  mov %rax, -8(%rsp)\n"       // a stale value below the stack pointer (red zone): must not count as a reference
+    "  mov 400(%r11), %rax\n"
+    "  test %rax, %rax\n"
+    "  jz 5f\n"
+    "  mov %rax, 16(%rsp)\n"       // a live reference above the stack pointer (the thread never returns)
     "5:\n"
     "  movdqu 112(%r11), %xmm0\n  movdqu 128(%r11), %xmm1\n  movdqu 144(%r11), %xmm2\n  movdqu 160(%r11), %xmm3\n"
     "  movdqu 176(%r11), %xmm4\n  movdqu 192(%r11), %xmm5\n  movdqu 208(%r11), %xmm6\n  movdqu 224(%r11), %xmm7\n"
@@ -411,6 +416,7 @@ int main(int argc, char **argv) {
     sh->regs[i].adj = adj;
     if (forced[i]) { sh->regs[i].sp_forced = 1; sh->regs[i].adj = forced_sp[i]; }
     sh->regs[i].below_ptr = nregions > 0 ? regions[0].addr + 8 : 0;
+    sh->regs[i].above_ptr = (nregions > 0 && (i % 2) == 1) ? regions[0].addr + 24 : 0;
     is_spin[i] = i > nblock;
     is_slow[i] = vfork_ms > 0 && i == nthreads_total - 1;
   }
